@@ -1,5 +1,6 @@
 #include "photospline/cinter/splinetable.h"
 #include "photospline/splinetable.h"
+#include <limits>
 
 #ifdef __cplusplus
 extern "C" {
@@ -183,10 +184,27 @@ double ndsplineeval(const struct splinetable* table, const double* x,
 	return(real_table.ndsplineeval(x,centers,derivatives));
 }
 	
+//ndsplineeval_gradient has no return value with which to report a failure:
+//mark every requested output as not-a-number instead
+static void gradient_failed(const struct splinetable* table, double* evaluates){
+	const auto& real_table=*static_cast<const photospline::splinetable<>*>(table->data);
+	for(uint32_t i=0; i<=real_table.get_ndim(); i++)
+		evaluates[i]=std::numeric_limits<double>::quiet_NaN();
+}
+
 void ndsplineeval_gradient(const struct splinetable* table, const double* x,
                            const int* centers, double* evaluates){
-	const auto& real_table=*static_cast<const photospline::splinetable<>*>(table->data);
-	real_table.ndsplineeval_gradient(x,centers,evaluates);
+	try{
+		const auto& real_table=*static_cast<const photospline::splinetable<>*>(table->data);
+		real_table.ndsplineeval_gradient(x,centers,evaluates);
+	}catch(std::exception& ex){
+		fprintf(stderr,"%s\n",ex.what());
+		gradient_failed(table,evaluates);
+		return;
+	}catch(...){
+		gradient_failed(table,evaluates);
+		return;
+	}
 }
 	
 double ndsplineeval_deriv(const struct splinetable* table, const double* x,
@@ -197,8 +215,15 @@ double ndsplineeval_deriv(const struct splinetable* table, const double* x,
 	
 int splinetable_convolve(struct splinetable* table, const int dim,
                          const double* knots, size_t n_knots){
-	auto& real_table=*static_cast<photospline::splinetable<>*>(table->data);
-	real_table.convolve(dim, knots, n_knots);
+	try{
+		auto& real_table=*static_cast<photospline::splinetable<>*>(table->data);
+		real_table.convolve(dim, knots, n_knots);
+	}catch(std::exception& ex){
+		fprintf(stderr,"%s\n",ex.what());
+		return(1);
+	}catch(...){
+		return(1);
+	}
 	return(0);
 }
 	
